@@ -251,6 +251,7 @@ func concChild(args []string) {
 		}
 	}
 	m := &concMem{rep: rep, mp: newMempool(100, false)}
+	m.mp.RegisterFilter(yieldFilter{})
 	for i := 0; i < nMem; i++ {
 		m.history(int64(first + i))
 	}
